@@ -34,8 +34,50 @@ fn build_numbered(spec: &DiagSpec, names: &[usize]) -> Graph {
     g
 }
 
-/// all labellings of the interior edges that satisfy the web constraints; returns the dimension of that space
+/// dimension of the space of valid webs by linear algebra over F2 (the constraints are linear: variables (x_j, z_j) per
+/// interior edge j; at a spider the own-colour component is the same on all legs - and 0 if a leg goes to a boundary,
+/// whose edges stay unmarked - and the other component sums to 0). Cross-checked against the brute-force count below
+/// whenever the labelling space is small (<= 4^5); a disagreement is a machinery error, never a verdict.
 fn web_space_dim(g: &Graph, edges: &[(V, V)]) -> usize {
+    let is_b = |v: V| g.vertex_type(v) == VType::B;
+    let interior: Vec<usize> = (0..edges.len()).filter(|&i| !is_b(edges[i].0) && !is_b(edges[i].1)).collect();
+    let k = interior.len();
+    assert!(2 * k <= 64, "MACHINERY: more than 32 interior edges");
+    let var = |e: usize, z: bool| -> Option<usize> { interior.iter().position(|&i| i == e).map(|j| 2 * j + z as usize) };
+    let mut rows: Vec<u64> = vec![];
+    for v in g.vertices().filter(|&v| !is_b(v)) {
+        let legs: Vec<usize> = (0..edges.len()).filter(|&i| edges[i].0 == v || edges[i].1 == v).collect();
+        let own_is_z = g.vertex_type(v) != VType::Z; // a Z spider's own component is X
+        let own: Vec<Option<usize>> = legs.iter().map(|&e| var(e, own_is_z)).collect();
+        let other: Vec<Option<usize>> = legs.iter().map(|&e| var(e, !own_is_z)).collect();
+        if own.iter().any(|o| o.is_none()) {
+            // a boundary leg carries 0: every own component is 0
+            for o in own.iter().flatten() {
+                rows.push(1u64 << o);
+            }
+        } else if let Some(Some(first)) = own.first() {
+            for o in own.iter().skip(1).flatten() {
+                rows.push((1u64 << first) ^ (1u64 << o));
+            }
+        }
+        let mut r = 0u64;
+        for o in other.iter().flatten() {
+            r ^= 1u64 << o;
+        }
+        if r != 0 {
+            rows.push(r);
+        }
+    }
+    let dim = 2 * k - f2_rank(rows);
+    if k <= 5 {
+        let brute = web_space_dim_brute(g, edges);
+        assert!(brute == dim, "MACHINERY: web space dimension by elimination {} != by enumeration {}", dim, brute);
+    }
+    dim
+}
+
+/// all labellings of the interior edges that satisfy the web constraints; returns the dimension of that space
+fn web_space_dim_brute(g: &Graph, edges: &[(V, V)]) -> usize {
     let is_b = |v: V| g.vertex_type(v) == VType::B;
     let interior: Vec<usize> = (0..edges.len()).filter(|&i| !is_b(edges[i].0) && !is_b(edges[i].1)).collect();
     let spiders: Vec<V> = g.vertices().filter(|&v| !is_b(v)).collect();
@@ -128,7 +170,7 @@ pub fn judge(st: &mut Stats, spec: &DiagSpec, names: &[usize]) {
     }
     let mut edges: Vec<(V, V)> = g.edges().map(|(a, b, _)| (a.min(b), a.max(b))).collect();
     edges.sort();
-    if edges.len() > 12 {
+    if edges.len() > 32 {
         return;
     }
     let eidx: BTreeMap<(V, V), usize> = edges.iter().enumerate().map(|(i, e)| (*e, i)).collect();
@@ -222,6 +264,7 @@ pub fn run(rep: &mut Report) {
     for (s, b, all) in fams {
         let t0 = Instant::now();
         let fam = family(s, b);
+        eprintln!("[C20] P({},{}): {} diagrams", s, b, fam.len());
         let stats = sweep(&fam, |st, i, spec| {
             watch_begin(i as u64, 0);
             st.inc("cases");
